@@ -138,6 +138,7 @@ func facts(f *hc.Facts) {
 // ---------------------------------------------------------------- messages
 
 type msgServer struct {
+	empty  map[int]bool // ids sent as messageEmpty
 	hist   []int  // descending ids
 	kinds  string // wish per request: f|s|c
 	script []scriptPage
@@ -150,10 +151,12 @@ type scriptPage struct {
 	ids  []int
 }
 
-func msgObjs(ids []int) []tg.MessageClass {
+func msgObjs(ids []int, empty map[int]bool) []tg.MessageClass {
 	out := make([]tg.MessageClass, 0, len(ids))
 	for _, id := range ids {
-		if id%7 == 3 {
+		if empty[id] {
+			out = append(out, &tg.MessageEmpty{ID: id})
+		} else if id%7 == 3 {
 			out = append(out, &tg.MessageService{ID: id, PeerID: &tg.PeerUser{UserID: 10}, Date: 1000 + id, Action: &tg.MessageActionPinMessage{}})
 		} else {
 			out = append(out, &tg.Message{ID: id, PeerID: &tg.PeerUser{UserID: 10}, Date: 1000 + id, Message: strconv.Itoa(id)})
@@ -162,15 +165,15 @@ func msgObjs(ids []int) []tg.MessageClass {
 	return out
 }
 
-func msgResult(kind byte, page []int, count int) tg.MessagesMessagesClass {
+func msgResult(kind byte, page []int, count int, empty map[int]bool) tg.MessagesMessagesClass {
 	users := []tg.UserClass{&tg.User{ID: 10, AccessHash: 77}}
 	switch kind {
 	case 'f':
-		return &tg.MessagesMessages{Messages: msgObjs(page), Users: users}
+		return &tg.MessagesMessages{Messages: msgObjs(page, empty), Users: users}
 	case 'c':
-		return &tg.MessagesChannelMessages{Messages: msgObjs(page), Count: count, Users: users}
+		return &tg.MessagesChannelMessages{Messages: msgObjs(page, empty), Count: count, Users: users}
 	}
-	return &tg.MessagesMessagesSlice{Messages: msgObjs(page), Count: count, Users: users}
+	return &tg.MessagesMessagesSlice{Messages: msgObjs(page, empty), Count: count, Users: users}
 }
 
 func (s *msgServer) Query(ctx context.Context, req messages.Request) (tg.MessagesMessagesClass, error) {
@@ -184,9 +187,9 @@ func (s *msgServer) Query(ctx context.Context, req messages.Request) (tg.Message
 	}
 	if s.script != nil {
 		if i < len(s.script) {
-			return msgResult(s.script[i].kind, s.script[i].ids, 1000), nil
+			return msgResult(s.script[i].kind, s.script[i].ids, 1000, s.empty), nil
 		}
-		return msgResult('s', nil, 1000), nil
+		return msgResult('s', nil, 1000, s.empty), nil
 	}
 	var rem []int
 	for _, id := range s.hist {
@@ -205,7 +208,7 @@ func (s *msgServer) Query(ctx context.Context, req messages.Request) (tg.Message
 	if kind == 'f' && len(rem) > req.Limit {
 		kind = 's'
 	}
-	return msgResult(kind, page, len(s.hist)), nil
+	return msgResult(kind, page, len(s.hist), s.empty), nil
 }
 
 func joinInts(a []int) string {
@@ -528,10 +531,29 @@ func run(c *hc.Ctx) error {
 	for _, cf := range cfgs {
 		hist := genHist(r, cf.n)
 		kinds := genKinds(r, r.Range(0, cf.n/cf.limit+3))
-		srv := &msgServer{hist: hist, kinds: kinds}
+		// sometimes a few entries are messageEmpty (never two neighbours, page size ≥ 2: every non-final
+		// page then still holds a real message); they must be skipped without disturbing the offsets
+		empty := map[int]bool{}
+		var empties, want []int
+		if cf.limit >= 2 && r.Chance(15) {
+			for j := 0; j < len(hist); j++ {
+				if r.Chance(25) {
+					empty[hist[j]] = true
+					empties = append(empties, hist[j])
+					j++
+				}
+			}
+			c.Count("msg.with-messageEmpty")
+		}
+		for _, id := range hist {
+			if !empty[id] {
+				want = append(want, id)
+			}
+		}
+		srv := &msgServer{hist: hist, kinds: kinds, empty: empty}
 		maxCalls := cf.n + 5
 		obs, ys, done, after, p := iterateMsgs(srv, cf.limit, maxCalls)
-		line := fmt.Sprintf("msg %d %d %s %s", cf.limit, maxCalls, orDash(kinds), joinInts(hist))
+		line := fmt.Sprintf("msg %d %d %s %s %s", cf.limit, maxCalls, orDash(kinds), joinInts(hist), joinInts(empties))
 		c.Eval(line, cf.n > cf.limit)
 		switch {
 		case cf.n == 0:
@@ -549,7 +571,7 @@ func run(c *hc.Ctx) error {
 			obs = "panic"
 		case strings.HasPrefix(obs, "err "):
 			c.Fail("msg-error", line, obs)
-		case !equalInts(ys, hist):
+		case !equalInts(ys, want):
 			c.Fail("msg-not-exact", line, "yielded "+joinInts(ys))
 		case !done:
 			c.Fail("msg-no-stop", line, "Next still true after every item was yielded")
@@ -584,13 +606,23 @@ func run(c *hc.Ctx) error {
 			pages = append(pages, scriptPage{k, ids})
 			parts = append(parts, string(k)+":"+joinInts(ids))
 		}
-		srv := &msgServer{script: pages}
+		sEmpty := map[int]bool{}
+		var sEmpties []int
+		if r.Chance(30) {
+			for id := 1; id <= 12; id++ {
+				if r.Chance(20) {
+					sEmpty[id] = true
+					sEmpties = append(sEmpties, id)
+				}
+			}
+		}
+		srv := &msgServer{script: pages, empty: sEmpty}
 		if pages == nil {
 			srv.script = []scriptPage{}
 		}
 		maxCalls := total + 4
 		obs, ys, _, _, p := iterateMsgs(srv, limit, maxCalls)
-		line := fmt.Sprintf("script %d %d %s", limit, maxCalls, orDash(strings.Join(parts, ";")))
+		line := fmt.Sprintf("script %d %d %s %s", limit, maxCalls, orDash(strings.Join(parts, ";")), joinInts(sEmpties))
 		c.Eval(line, np > 0)
 		c.Count("script")
 		if p != nil {
